@@ -46,10 +46,15 @@ def _cases(rnd, nbase):
         A = S.gen_schema(rnd)
         if k % 3 == 0:
             S.add_computed(rnd, A, 0.7)        # generated columns (nullable explicit or left unset)
+        if k % 2 == 0:
+            S.decorate(rnd, A)                 # CHECK constraints / expression indexes: invisible to the comparison
         for kind in S.MUT_KINDS:
             m = S.gen_mutation(rnd, A, kind)
             if m is not None:
-                yield {"A": A, "m": m}
+                h = {"A": A, "m": m}
+                if k % 4 == 0:                 # ... also when they differ between the database and the changed model
+                    h["deco_seed"] = rnd.randrange(1 << 30)
+                yield h
 
 
 def generate(tier, seed):
@@ -68,6 +73,8 @@ def run_case(h):
     S.quiet_logs()
     A, m = h["A"], h["m"]
     B = S.apply_mutation(A, m)
+    if "deco_seed" in h:
+        S.decorate(random.Random(h["deco_seed"]), B, 0.7)
     mdB = S.build_metadata(B)
     e = S.fresh_db(A)
     outs, qs = [], []
